@@ -23,22 +23,21 @@ def check_verify_fn(ck, F):
     n = isym("N")
     lg = isym("lg")
 
-    def hook_vs(I_, args, node):
-        return Enum("Result", "Ok", [__import__("rules.alg", fromlist=["Tup"]).Tup([H.sc_vec("usq", lg), H.sc_vec("uinvsq", lg), H.sc_vec("s", n)])])
-
-    I.hooks[ipp.P_VS] = hook_vs
+    # verification_scalars (or whatever private helper verify uses for it) is interpreted, not stubbed: the expected
+    # point is stated in the terms R10.3 establishes (u_j^2, u_j^-2 and the recurrence vector s)
     proof = Struct("inner_product_proof::InnerProductProof", {"L_vec": H.pt_vec("pf.L", lg), "R_vec": H.pt_vec("pf.R", lg), "a": Sc(ssym("pf.a")), "b": Sc(ssym("pf.b"))})
     args = [proof, IntV(n), Tr("ipp"), H.sc_vec("gf", n), H.sc_vec("hf", n), Pt.atom(ssym("P")), Pt.atom(ssym("Q")), H.pt_vec("Gv", n), H.pt_vec("Hv", n)]
     ret = I.call_fn(path, args)
     a, b = ssym("pf.a"), ssym("pf.b")
-    s = sfun("s")
+    s = sfun(I.recurrences[-1]["name"] if I.recurrences else "s")
+    U_ = sfun("ch[u].d0")
     want = Pt(
         [
             (sp.Integer(1), lambda j: ssym("Q"), lambda j: a * b),
             (n, lambda j: sfun("Gv")(j), lambda j: a * s(j) * sfun("gf")(j)),
             (n, lambda j: sfun("Hv")(j), lambda j: b * s(n - 1 - j) * sfun("hf")(j)),
-            (lg, lambda j: sfun("pf.L")(j), lambda j: -sfun("usq")(j)),
-            (lg, lambda j: sfun("pf.R")(j), lambda j: -sfun("uinvsq")(j)),
+            (lg, lambda j: sfun("pf.L")(j), lambda j: -U_(j) ** 2),
+            (lg, lambda j: sfun("pf.R")(j), lambda j: -U_(j) ** -2),
         ]
     )
     from ..alg import Ite
